@@ -10,6 +10,7 @@ import VrlProofs.Lemmas.KindGet
 import VrlProofs.Lemmas.KindUnion
 import VrlProofs.Lemmas.KindSuperset
 import VrlProofs.Lemmas.KindInsert
+import VrlProofs.Lemmas.KindGetNeg
 
 namespace C19
 open Spec
@@ -147,5 +148,34 @@ theorem insertClass_none (K : Kind) (p : Path) (X : Kind) (h : insertClass K p X
       · cases h
       · rename_i h1 _ h3
         exact ⟨by simpa using h1, by simpa using h3⟩
+
+/-- **Reading is sound outside the finding classes**: for every value with key-sorted objects, every
+    key-sorted kind (`BTreeMap`s) and every path (fields, indices of either sign, any depth) with
+    `atClass K p = none`, i.e. the path meets no array kind with a known index that may be absent
+    (`D_minlen_counts_optional`) and, if it meets an array kind of unknown length at a negative index,
+    every `Infinite` unknown of `K` is `any` (`D_inf_over_exact`). -/
+theorem at_sound_class (v : Value) (K : Kind) (p : Path) (hs : v.Sorted = true)
+    (sK : K.SortedK = true) (hc : atClass K p = .none) : atLawM v K p = true := by
+  unfold atClass at hc
+  split at hc
+  · cases hc
+  · rename_i h1
+    have h1 : anyOnPath optionalIdx K p = false := by simpa using h1
+    split at hc
+    · cases hc
+    · rename_i h2
+      simp only [Bool.and_eq_true, not_and, Bool.not_eq_true] at h2
+      cases hn : anyOnPath negUnknown K p with
+      | false => exact at_sound_partial v K p hs h1 hn
+      | true =>
+        have iK := h2 hn
+        unfold atLawM atLaw getLaw
+        cases hm : mem v K with
+        | false => rfl
+        | true =>
+          have h := Spec.atPath_sound_full p (some v) K hs hm sK iK h1
+          have hg := Spec.mem_upgradeUndefined _ _ h
+          simp only [Value.get, Kind.get, Bool.not_true, Bool.false_or, Bool.and_eq_true]
+          exact ⟨h, hg⟩
 
 end C19
